@@ -11,7 +11,7 @@ import json
 import time
 
 from vmc import common, observe, refsem, sqlgen
-from vmc.c01 import QUICK_DIALECTS, SELECT_INTO_OK, _write_pins, all_dialects, enumerate_cases
+from vmc.c01 import QUICK_DIALECTS, SELECT_INTO_OK, _write_pins, all_dialects, enumerate_cases, enumerate_plan
 from vmc.common import HarnessError, Report, pmap
 
 PGCAST_OK = {"postgres", "redshift", "snowflake", "duckdb", "greenplum", "materialize", "databricks", "sparksql", "trino", "athena", "bigquery_no"}
@@ -104,6 +104,11 @@ def classify(st, dialect, res):
         return "F-C02-join-inside-derived-table-leaks-into-outer-scope"
     if info["unq_multi_levels"] >= 2 and miss and not extra and any(p[0].startswith("?") for p in res["obs"]["pairs"]):
         return "F-C04-unresolved-columns-of-equal-name-merge"
+    if miss and not extra and all(m[0].startswith("?") for m in miss) and info["unq_multi_levels"] >= 1:
+        # the unresolved column's name is also read qualified elsewhere in the statement: late resolution guesses that table
+        names = {m[0][1:].split("[")[0] for m in miss}
+        if any(p[0].endswith("." + n) for n in names for p in res["obs"]["pairs"]):
+            return "F-C02-unresolved-column-guessed-from-columns-seen-elsewhere"
     if has_lit and "setop" in f:
         return "F-C02-literal-in-set-operation"
     if has_lit:
@@ -118,10 +123,19 @@ def run(tier: str, opts: dict) -> int:
     dialects = ["ansi", "tsql", "sparksql", "postgres", "mysql"] if tier == "quick" else all_dialects()
     if "dialects" in opts:
         dialects = opts["dialects"].split(",")
-    cases, n_exec = enumerate_cases(sqlgen.COLUMN_PROFILE, D, depth)
+    C = sqlgen.CENTRES
+    if tier == "quick":
+        plan = [("simple", C["simple"], D), ("join", C["join"], 2), ("derived", C["derived"], 1), ("cte", C["cte"], 1)]
+    else:
+        plan = [("simple", C["simple"], D), ("join", C["join"], 3), ("derived", C["derived"], 2), ("cte", C["cte"], 2)]
+    if "centres" in opts:
+        plan = [p for p in plan if p[0] in opts["centres"].split(",")]
+    cases, n_exec = enumerate_plan(plan, depth)
     tasks = []
-    for sql, (st, trace, ndev) in cases:
+    for sql, (st, trace, ndev, centre) in cases:
         f = sqlgen.features(st)
+        if centre != "simple":
+            ndev += 2  # dialect fan-out is decided relative to the simple centre
         for d in dialects:
             if st["kind"] == "select_into" and d not in SELECT_INTO_OK:
                 continue
@@ -164,8 +178,8 @@ def run(tier: str, opts: dict) -> int:
             rep.violation(r["bad"], {"dialect": d, "sql": r["sql"], "ast": st}, {k: r[k] for k in ("obs", "expected", "delta") if k in r})
     if regen:
         return _write_pins("C02", new_pins, unclassified, replace=(tier == "thorough"))
-    for sql, (st, trace, ndev) in cases[:: max(1, len(cases) // 5)][:5]:
-        rep.sample({"sql": sql, "choice_trace": trace, "deviations": ndev, "expected_pairs": sorted(refsem.columns(st))})
+    for sql, (st, trace, ndev, centre) in cases[:: max(1, len(cases) // 5)][:5]:
+        rep.sample({"sql": sql, "centre": centre, "choice_trace": trace, "deviations": ndev, "expected_pairs": sorted(refsem.columns(st))})
     rep.coverage.update(
         evaluations=len(tasks),
         distinct_nontrivial=len(nontrivial),
@@ -175,7 +189,8 @@ def run(tier: str, opts: dict) -> int:
         f"1-3 select items x item kind (14) x reference target x qualified/unqualified, nesting depth <= {depth}; "
         "non-trivial = distinct rendered statement with >= 2 expected column pairs or a disagreement",
         exhaustive=True,
-        bound_completed={"deviations": D, "depth": depth, "dialects": dialects},
+        bound_completed={"plan (centre, deviations)": [(p[0], p[2]) for p in plan], "depth": depth, "dialects": dialects},
+        centres={p[0]: sqlgen.render(__import__("vmc.explorer", fromlist=["replay"]).replay(lambda c, pr=p[1]: sqlgen.gen_statement(c, pr, depth), [])[1]) for p in plan},
         per_dialect=per_dialect,
         rejected_by_dialect=skipped,
     )
